@@ -17,7 +17,9 @@ C  code -> spec: Name.to_str / to_canonical_uri / Component.to_str / to_canonica
    Name.to_bytes outputs on the enumerated components and on random larger names (0..8 components, types
    1..65535, arbitrary bytes, digests, typed numbers 0..2^64-1, values up to 300 bytes) are parsed back by
    the reference INSIDE TLC (NameUriJudge); ordering / equality / is_prefix matrices of random name sets are
-   compared with NameLess / PrefixByComponents; arbitrary URI strings with raw non-ASCII characters (= their
+   compared with NameLess / PrefixByComponents - order / equality on the library's OWN return values (constructed,
+   parsed, decoded; no harness copies except memoryview x memoryview, which Python cannot order), printing functions
+   on every container type and spelling (NAME_INPUTS); arbitrary URI strings with raw non-ASCII characters (= their
    UTF-8 bytes in the reference) read by Name.from_str / normalize must give the reference's name; Name.is_prefix is called in all nine combinations of argument
    forms (component list / wire / URI on either side), also on names crossing the 253-byte Name length boundary.
 """
@@ -119,6 +121,24 @@ def replay_comp(rec):
         n += 1
         if ex or got != num:
             yield 'Component.to_number', 'short', ex or 'wrong-number', 'to_number(%r) -> %r' % (enc, ex or got)
+        named = {50: Component.from_segment, 52: Component.from_byte_offset, 54: Component.from_version,
+                 56: Component.from_timestamp, 58: Component.from_sequence_num}[t]
+        got, ex = _try(named, num)
+        n += 1
+        if ex or bytes(got) != enc:
+            yield 'Component.' + named.__name__, 'short', ex or 'wrong-component', '%s(%d) -> %r, spec %r' % (named.__name__, num, ex or bytes(got), enc)
+    if t in ALT:
+        # the number a typed-number component holds, whatever its width, from every container type the library hands out
+        want = txt(rec['dec'])
+        for kind, obj in (('bytes', enc), ('bytearray', bytearray(enc)), ('memoryview', memoryview(enc))):
+            got, ex = _try(Component.to_number, obj)
+            n += 1
+            if ex or str(got) != want:
+                yield 'Component.to_number', 'value:' + kind, ex or 'wrong-number', 'to_number(%s %r) -> %r, spec %s' % (kind, enc, ex or got, want)
+    got, ex = _try(Component.from_hex, v.hex(), t)
+    n += 1
+    if ex or bytes(got) != enc:
+        yield 'Component.from_hex', 'wire', ex or 'wrong-bytes', 'from_hex(%r, %d) -> %r' % (v.hex(), t, ex or bytes(got))
     for f in rec['forms']:
         text = txt(f['s'])
         if f['k'] not in ('raw', 'rawU'):      # Component.from_str takes escaped text only
@@ -264,33 +284,79 @@ def replay_alias(rec):
     yield None, None, None, n
 
 
+FORM_NAMES = ('list', 'wire', 'uri', 'uri-shorthand', 'uri-typed-lowerhex', 'uri-nolead-trail', 'decoded-list', 'wire-bytearray')
+FORM_COMBOS = [(a, b) for a in range(3) for b in range(3)]
+N_ROT = 8
+
+
+def alt_uri(jname, lead):
+    """a NON-canonical spelling of the name, made by the harness from (t, v) only: every component with an explicit type
+    number (also '8='), every byte percent-escaped in lower-case hex; with leading slash, or without it and with the
+    optional trailing slash.  (That these spellings denote the name is law I_NameForms / stage B: styles typed, allesc.)"""
+    if not jname:
+        return '/' if lead else ''
+    body = '/'.join('%d=%s' % (c['t'], ''.join('%%%02x' % b for b in c['v'])) for c in jname)
+    return '/' + body if lead else body + '/'
+
+
 def _name_inputs(Name, Component, jname, how):
-    """the same abstract name in one of three accepted input forms"""
-    comps = [bytes(Component.from_bytes(bytes(c['v']), c['t'])) for c in jname]
+    """the same abstract name in one of the accepted input forms (FORM_NAMES); lists hold the library's own objects"""
+    comps = [Component.from_bytes(bytes(c['v']), c['t']) for c in jname]
     if how == 0:
         return comps
     if how == 1:
         return Name.to_bytes(comps)
-    return Name.to_canonical_uri(comps)
+    if how == 2:
+        return Name.to_canonical_uri(comps)
+    if how == 3:
+        return Name.to_str(comps)
+    if how == 4:
+        return alt_uri(jname, True)
+    if how == 5:
+        return alt_uri(jname, False)
+    if how == 6:
+        return Name.from_bytes(Name.to_bytes(comps))         # memoryview components, as in every received packet
+    return bytearray(Name.to_bytes(comps))
 
 
-FORM_NAMES = ('list', 'wire', 'uri')
-FORM_COMBOS = [(a, b) for a in range(3) for b in range(3)]
+def rot_forms(f, i, j):
+    """argument forms of the f-th rotating is_prefix matrix for the pair (i, j): over a set of names every
+    combination of the eight forms occurs, in particular two URI strings in different spellings"""
+    return (i + f) % 8, (3 * i + j + 5 * f + 1) % 8
 
 
 def matrices(jnames):
-    """what the library / Python says about all pairs of a list of abstract names.  `prefix` holds one matrix
-    per combination of argument forms of Name.is_prefix (component list / wire / URI on either side)."""
+    """what the library / Python says about all pairs of a list of abstract names.
+    Order and equality are evaluated on the LIBRARY'S OWN return values (no copies): constructed = Component.from_bytes
+    results, parsed = Name.from_str(canonical URI), decoded = Name.from_bytes(wire) (memoryviews).  Python defines no
+    order between two memoryviews, so for decoded x decoded the order clause is evaluated on bytes(component)
+    (DESIGN 6/C09: "Python's ordering of bytes(component)"); every other combination uses the objects as returned.
+    `prefix` holds one matrix per fixed combination of list / wire / URI arguments plus N_ROT rotating matrices that
+    bring in shorthand and non-canonical URI spellings, decoded lists and bytearray wires on either side."""
     Name, Component = _lib()
-    lists = [[bytes(Component.from_bytes(bytes(c['v']), c['t'])) for c in n] for n in jnames]
-    cat = [b''.join(x) for x in lists]
-    k = len(lists)
-    forms = [[_name_inputs(Name, Component, n, how) for how in range(3)] for n in jnames]
-    return {'less': [[lists[i] < lists[j] for j in range(k)] for i in range(k)],
-            'vless': [[cat[i] < cat[j] for j in range(k)] for i in range(k)],
-            'eq': [[lists[i] == lists[j] for j in range(k)] for i in range(k)],
-            'prefix': [[[bool(Name.is_prefix(forms[i][a], forms[j][b])) for j in range(k)] for i in range(k)]
-                       for a, b in FORM_COMBOS]}
+    k = len(jnames)
+    forms = [[_name_inputs(Name, Component, n, how) for how in range(8)] for n in jnames]
+    kinds = [[forms[i][0], Name.from_str(forms[i][2]), forms[i][6]] for i in range(k)]
+
+    def operands(i, j):
+        a, b = (i + j) % 3, (i + 2 * j + 1) % 3
+        x, y = kinds[i][a], kinds[j][b]
+        if a == 2 and b == 2:
+            x, y = [bytes(c) for c in x], [bytes(c) for c in y]
+        return x, y
+    less = [[False] * k for _ in range(k)]
+    eq = [[False] * k for _ in range(k)]
+    for i in range(k):
+        for j in range(k):
+            x, y = operands(i, j)
+            less[i][j] = x < y
+            eq[i][j] = (kinds[i][(i + j) % 3] == kinds[j][(i + 2 * j + 1) % 3])
+    cat = [b''.join(kinds[i][i % 3]) for i in range(k)]
+    prefix = [[[bool(Name.is_prefix(forms[i][a], forms[j][b])) for j in range(k)] for i in range(k)] for a, b in FORM_COMBOS]
+    for f in range(N_ROT):
+        prefix.append([[bool(Name.is_prefix(forms[i][rot_forms(f, i, j)[0]], forms[j][rot_forms(f, i, j)[1]]))
+                        for j in range(k)] for i in range(k)])
+    return {'less': less, 'vless': [[cat[i] < cat[j] for j in range(k)] for i in range(k)], 'eq': eq, 'prefix': prefix}
 
 
 def replay_sorted_names(rec):
@@ -306,20 +372,23 @@ def replay_sorted_names(rec):
                 if m[field][i][j] != want and field not in bad:
                     bad[field] = 'a=%s b=%s: library %s=%s, reference %s' % (
                         json.dumps(names[i]), json.dumps(names[j]), field, m[field][i][j], want)
-            for f, (a, b) in enumerate(FORM_COMBOS):
+            for f in range(len(m['prefix'])):
+                a, b = FORM_COMBOS[f] if f < len(FORM_COMBOS) else rot_forms(f - len(FORM_COMBOS), i, j)
                 if m['prefix'][f][i][j] != (j in pre) and 'prefix' not in bad:
                     bad['prefix'] = 'is_prefix(a as %s, b as %s) a=%s b=%s: library %s, reference %s' % (
                         FORM_NAMES[a], FORM_NAMES[b], json.dumps(names[i]), json.dumps(names[j]),
                         m['prefix'][f][i][j], j in pre)
-    return bad, 12 * k * k
+    return bad, (3 + len(m['prefix'])) * k * k
 
 
 def replay_sorted_comps(rec):
     Name, Component = _lib()
-    cs = [bytes(Component.from_bytes(bytes(c['v']), c['t'])) for c in rec['comps']]
+    cs = [Component.from_bytes(bytes(c['v']), c['t']) for c in rec['comps']]          # the library's objects, not copies
+    ps = [Component.from_str(Component.to_canonical_uri(c)) for c in cs]
     bad = {}
-    for i, a in enumerate(cs):
-        for j, b in enumerate(cs):
+    for i in range(len(cs)):
+        for j in range(len(cs)):
+            a, b = (cs, ps)[(i + j) % 2][i], (cs, ps)[j % 2][j]
             if ((a < b) != (i < j) or (a == b) != (i == j) or (a > b) != (i > j)) and 'cless' not in bad:
                 bad['cless'] = 'bytes order of %r vs %r disagrees with the reference (ranks %d, %d)' % (a, b, i, j)
     return bad, 3 * len(cs) ** 2
@@ -327,15 +396,39 @@ def replay_sorted_comps(rec):
 
 # ------------------------------------------------------------------------------------------ stage C recorders
 
-def record_name(jname):
-    """library outputs for the abstract name jname = [{t, v}]"""
+NAME_INPUTS = ('constructed', 'bytes-list', 'decoded', 'wire', 'wire-bytearray', 'uri-shorthand', 'uri-typed-lowerhex',
+               'uri-nolead-trail')
+
+
+def record_name(jname, how=0):
+    """library outputs for the abstract name jname = [{t, v}], the name being handed to the printing functions as
+    NAME_INPUTS[how]: the constructors' own objects, bytes copies, the memoryview components of the decoded wire,
+    the wire itself, or a URI string in shorthand / non-canonical spelling"""
     Name, Component = _lib()
     comps = [Component.from_bytes(bytes(c['v']), c['t']) for c in jname]
-    return {'k': 'name', 'n': jname,
-            'to_str': codes(Name.to_str(comps)), 'canon': codes(Name.to_canonical_uri(comps)),
-            'cstr': [codes(Component.to_str(c)) for c in comps],
-            'ccanon': [codes(Component.to_canonical_uri(c)) for c in comps],
-            'wire': list(Name.to_bytes(comps))}
+    kind = NAME_INPUTS[how]
+    if kind == 'constructed':
+        arg, parts = comps, comps
+    elif kind == 'bytes-list':
+        arg = parts = [bytes(c) for c in comps]
+    elif kind == 'decoded':
+        arg = parts = Name.from_bytes(Name.to_bytes(comps))
+    elif kind in ('wire', 'wire-bytearray'):
+        arg = Name.to_bytes(comps) if kind == 'wire' else bytearray(Name.to_bytes(comps))
+        parts = Name.from_bytes(arg)
+    else:
+        arg = Name.to_str(comps) if kind == 'uri-shorthand' else alt_uri(jname, kind == 'uri-typed-lowerhex')
+        parts = Name.normalize(arg)
+    if len(parts) != len(jname):          # cstr/ccanon are per component of n: report through the name-level clauses
+        parts = comps
+    rec = {'k': 'name', 'n': jname,
+           'to_str': codes(Name.to_str(arg)), 'canon': codes(Name.to_canonical_uri(arg)),
+           'cstr': [codes(Component.to_str(c)) for c in parts],
+           'ccanon': [codes(Component.to_canonical_uri(c)) for c in parts],
+           'wire': list(Name.to_bytes(arg))}
+    if how:
+        rec['inp'] = kind
+    return rec
 
 
 def record_name_aliased(jname):
@@ -391,8 +484,11 @@ def record_pairs(jnames):
 
 def record_cpairs(jcomps):
     Name, Component = _lib()
-    cs = [bytes(Component.from_bytes(bytes(c['v']), c['t'])) for c in jcomps]
-    return {'k': 'cpairs', 'comps': jcomps, 'less': [[a < b for b in cs] for a in cs]}
+    cs = [Component.from_bytes(bytes(c['v']), c['t']) for c in jcomps]            # compared as returned, no copies
+    ps = [Component.from_str(Component.to_str(c)) for c in cs]
+    pick = lambda i, j: ((cs, ps)[(i + j) % 2][i], (cs, ps)[j % 2][j])
+    return {'k': 'cpairs', 'comps': jcomps,
+            'less': [[pick(i, j)[0] < pick(i, j)[1] for j in range(len(cs))] for i in range(len(cs))]}
 
 
 def lib_fn_of(e):
@@ -425,6 +521,7 @@ def safe(ctx, recorder, arg, slim):
             if '/ndn/' in fr.filename:
                 fn = '%s.%s' % (os.path.basename(fr.filename)[:-3], fr.name)
         cls = ('after-caller-mutation' if slim.get('alias') else
+               'input:' + NAME_INPUTS[slim['inp']] if isinstance(slim.get('inp'), int) and slim['inp'] else
                'noncanonical-typed-number' if slim.get('k') == 'name' and odd_number(slim['n']) else 'general')
         ctx.violation('C09/%s/%s/raises-%s' % (fn, cls, type(e).__name__),
                       'C: %s raised %s: %s while printing/comparing %s' % (fn, type(e).__name__, e, json.dumps(slim)[:600]),
@@ -468,7 +565,8 @@ def rand_value(rng, t, allow_odd):
         return bytes(rng.choice(b'abcdefghijklmnopqrstuvwxyz0123456789') if rng.random() < 0.97 else rng.randrange(256)
                      for _ in range(n))
     if x < 0.94:
-        return rng.choice(['é', 'Σπ', '名', '😀', 'seg=1', 'sha256digest=00', '8=a', '..', '...']).encode()
+        return rng.choice(['é', 'Σπ', '名', '😀', 'seg=1', 'sha256digest=00', '8=a', '..', '...', '%41', '%2F', '%2f', '%zz',
+                           'a%41b', '%25', '%2541']).encode()
     return rng.randbytes(rng.randint(7, 40))
 
 
@@ -616,6 +714,8 @@ def input_class(rec):
         return 'raw-non-ascii' if any(b >= 128 for b in rec['raw']) else 'general'
     if rec.get('alias'):
         return 'after-caller-mutation'
+    if rec.get('inp'):
+        return 'input:' + (NAME_INPUTS[rec['inp']] if isinstance(rec['inp'], int) else rec['inp'])
     if rec['k'] == 'name':
         return 'noncanonical-typed-number' if odd_number(rec['n']) else 'general'
     return 'general'
@@ -635,7 +735,7 @@ def report_rejected(ctx, recs, rejected, stage):
         rec = recs[i]
         for cl in rejected[i]:
             sig = 'C09/%s/%s/%s' % (FN_OF_CLAUSE.get(cl, cl), input_class(rec), cl)
-            slim = {k: rec[k] for k in ('k', 'alias', 'n', 'raw', 'names', 'comps') if k in rec}
+            slim = {k: rec[k] for k in ('k', 'alias', 'inp', 'n', 'raw', 'names', 'comps') if k in rec}
             ctx.violation(sig, '%s: reference rejects clause %s for %s' % (stage, cl, describe(rec)),
                           {'kind': 'judge', 'clause': cl, 'input': slim})
 
@@ -680,12 +780,13 @@ def _run(ctx, pool, t0, nr, nq):
     rnd, jrnd = [], None
     if 'C' in ctx.stages:
         rng = ctx.rng
-        for _ in range(ctx.pick(1500, 24000)):
-            n = rand_name(rng, allow_odd=False)
-            rnd.append(safe(ctx, record_name, n, {'k': 'name', 'n': n}))
-        for _ in range(ctx.pick(300, 3000)):
-            n = rand_name(rng, allow_odd=True)
-            rnd.append(safe(ctx, record_name, n, {'k': 'name', 'n': n}))
+        for q in range(ctx.pick(1800, 27000)):
+            n = rand_name(rng, allow_odd=q % 6 == 0)
+            how = q % len(NAME_INPUTS)           # every container type / spelling the printing functions may be given
+            rnd.append(safe(ctx, lambda x, h=how: record_name(x, h), n, {'k': 'name', 'n': n, 'inp': how}))
+        for L in (252, 253, 254, 255, 256, 300):        # component length at the 1-/3-byte TLV length boundary, read from TEXT
+            for t in ('/' + 'a' * L, '/32=' + 'b' * L, '/x/' + 'c' * (L - 1) + '%2F', '/' + 'd' * (L - 2) + 'é'):
+                rnd.append(safe(ctx, record_uri, t, {'k': 'uri', 'raw': codes(t)}))
         for _ in range(ctx.pick(300, 3000)):
             n = rand_name(rng, allow_odd=True)
             rnd.append(safe(ctx, record_name_aliased, n, {'k': 'name', 'alias': True, 'n': n}))
@@ -739,8 +840,9 @@ def _run(ctx, pool, t0, nr, nq):
     sweep, jsweep = [], None
     if 'C' in ctx.stages:
         # sweep: the library's printing of every enumerated component, judged by parse-back
-        sweep = [safe(ctx, record_name, [{'t': rec['t'], 'v': rec['v']}], {'k': 'name', 'n': [{'t': rec['t'], 'v': rec['v']}]})
-                 for rec in comp_recs]
+        sweep = [safe(ctx, lambda x, h=q % len(NAME_INPUTS): record_name(x, h), [{'t': rec['t'], 'v': rec['v']}],
+                      {'k': 'name', 'n': [{'t': rec['t'], 'v': rec['v']}], 'inp': q % len(NAME_INPUTS)})
+                 for q, rec in enumerate(comp_recs)]
         ctx.traces += sum(1 for r in sweep if r is None)
         sweep = [r for r in sweep if r is not None]
         jsweep = pool.submit(urikit.judge_batches, 'NameUriJudge', JUDGE_CFG, 'c09-s-%s' % ctx.tier, sweep, 3000, 2)
@@ -821,7 +923,9 @@ def replay(ctx, path):
         inp = obj['input']
         try:
             if inp['k'] == 'name':
-                rec = record_name_aliased(inp['n']) if inp.get('alias') else record_name(inp['n'])
+                how = inp.get('inp') or 0
+                how = NAME_INPUTS.index(how) if isinstance(how, str) else how
+                rec = record_name_aliased(inp['n']) if inp.get('alias') else record_name(inp['n'], how)
             elif inp['k'] == 'esc':
                 rec = record_esc(txt(inp['raw']))
             elif inp['k'] == 'uri':
